@@ -737,12 +737,17 @@ impl<'a> Work<'a> {
                     self.ready_dependents(id);
                 } else if self.options.adopt {
                     // Act as if the target already finished.
+                    // Nothing ran, so keep the deps discovered by the last real run.
+                    let mut discovered_deps = Vec::new();
+                    for &dep in self.graph.builds[id].discovered_ins() {
+                        discovered_deps.push(self.graph.file(dep).name.clone());
+                    }
                     self.record_finished(
                         id,
                         task::TaskResult {
                             termination: process::Termination::Success,
                             output: vec![],
-                            discovered_deps: None,
+                            discovered_deps: Some(discovered_deps),
                         },
                     )?;
                     self.ready_dependents(id);
